@@ -220,7 +220,7 @@ class LaplaceDomainExpression(LaplaceDomain, Expr):
 
         if ((self.is_causal or assumptions.get('causal', False))
                 and self.is_stable):
-            tmp = self(j * F / dt)
+            tmp = self(j * 2 * pi * F / dt)
             return self.change(tmp, domain='norm fourier',
                                **assumptions)
 
